@@ -58,3 +58,14 @@ Theorem C11_submission_wakes_job_thread : forall m now dp pf ps prio sa data tl 
   n_wakes (base m') = n_wakes (base m) + 1.
 Proof. exact submit_wakes. Qed.
 Print Assumptions C11_submission_wakes_job_thread.
+
+From J1939P Require NoOversleep22.
+(* the job thread wakes up not later than the deadline of any multi-PG buffer (and any FD session) still pending *)
+Theorem C11_job_thread_never_sleeps_past_a_buffer_deadline : forall m now,
+  tnodup (f_rcv m) -> tnodup (f_mpg m) -> tnodup (f_snd m) ->
+  match flat22 (dll_job22 m now (fun m' nw' => Done m' nw')) with
+  | (m', _, RDone nw') => nw' <= now + 5000000 /\ NoOversleep22.covered22 m' nw'
+  | (_, _, RRaise _) => True
+  end.
+Proof. exact NoOversleep22.dll_job22_wakeup_covers_every_deadline. Qed.
+Print Assumptions C11_job_thread_never_sleeps_past_a_buffer_deadline.
